@@ -192,7 +192,7 @@ def replay(data):
 
 TB = [
     "Coq 8.16.1 kernel + coqc; vm_compute for the correspondence",
-    "axioms: stdlib Reals (sig_forall_dec, sig_not_dec, functional_extensionality_dep) for the theorems over R; labelling theorems over Z/Q are axiom-free",
+    "axioms: stdlib Reals (sig_forall_dec, sig_not_dec, functional_extensionality_dep; coqchk -o also lists Classical_Prop.classic, declared by the loaded Reals library) for the theorems over R; labelling theorems over Z/Q are axiom-free",
     "translator: freq axis expression, loader default dfreq; structural anchor for fourier_shell_correlation",
     "assumed kernel laws: numpy fftn / fftshift / fftfreq; scipy.ndimage.sum_labels sums per label",
 ]
